@@ -1,0 +1,103 @@
+//! Verification hooks for `p2p::shwap` (compiled only with `--cfg eigerco_lumina_verif`).
+//!
+//! Public wrappers around the crate-private `ShwapMultihasher`, `convert_cid`, `sample_cid` and
+//! `get_block_container`. Nothing here changes the behaviour of the wrapped code; errors are
+//! stringified because `P2pError` carries crate-private payloads.
+
+use std::sync::Arc;
+
+use beetswap::multihasher::{Multihasher, MultihasherError};
+use cid::{Cid, CidGeneric};
+
+use super::ShwapMultihasher;
+use crate::store::{InMemoryStore, Store};
+
+/// `p2p::MAX_MH_SIZE`: multihash size bitswap is instantiated with.
+pub const MAX_MH_SIZE: usize = crate::p2p::MAX_MH_SIZE;
+
+/// How `ShwapMultihasher::hash` failed (public mirror of `beetswap::MultihasherError`).
+#[derive(Debug, Clone, PartialEq, Eq)]
+pub enum HashError {
+    /// `MultihasherError::UnknownMultihashCode` (beetswap tries the next multihasher).
+    UnknownMultihashCode,
+    /// `MultihasherError::InvalidMultihashSize`
+    InvalidMultihashSize,
+    /// `MultihasherError::Custom`
+    Custom(String),
+    /// `MultihasherError::CustomFatal` (beetswap closes the stream).
+    CustomFatal(String),
+}
+
+impl std::fmt::Display for HashError {
+    fn fmt(&self, f: &mut std::fmt::Formatter<'_>) -> std::fmt::Result {
+        match self {
+            HashError::UnknownMultihashCode => f.write_str("Unknown multihash code"),
+            HashError::InvalidMultihashSize => f.write_str("Invalid multihash size"),
+            HashError::Custom(s) => write!(f, "Hashing failure: {s}"),
+            HashError::CustomFatal(s) => write!(f, "Fatal hashing failure: {s}"),
+        }
+    }
+}
+
+impl std::error::Error for HashError {}
+
+impl From<MultihasherError> for HashError {
+    fn from(e: MultihasherError) -> Self {
+        match e {
+            MultihasherError::UnknownMultihashCode => HashError::UnknownMultihashCode,
+            MultihasherError::InvalidMultihashSize => HashError::InvalidMultihashSize,
+            MultihasherError::Custom(s) => HashError::Custom(s),
+            MultihasherError::CustomFatal(s) => HashError::CustomFatal(s),
+        }
+    }
+}
+
+/// Runs the real `ShwapMultihasher` (as registered with bitswap) over `store`.
+/// `Ok` carries the bytes of the resulting `Multihash<MAX_MH_SIZE>` (`Multihash::to_bytes`).
+pub async fn multihasher_hash_async<S>(
+    store: Arc<S>,
+    multihash_code: u64,
+    input: &[u8],
+) -> Result<Vec<u8>, HashError>
+where
+    S: Store + 'static,
+{
+    let hasher = ShwapMultihasher::new(store);
+    let mh = Multihasher::<MAX_MH_SIZE>::hash(&hasher, multihash_code, input).await?;
+    Ok(mh.to_bytes())
+}
+
+/// Blocking form of [`multihasher_hash_async`] over an `InMemoryStore` (its `get_by_height`
+/// only awaits a `tokio::sync::RwLock`, so any executor can drive it).
+pub fn multihasher_hash(
+    store: Arc<InMemoryStore>,
+    multihash_code: u64,
+    input: &[u8],
+) -> Result<Vec<u8>, String> {
+    futures::executor::block_on(multihasher_hash_async(store, multihash_code, input))
+        .map_err(|e| e.to_string())
+}
+
+/// Same as [`multihasher_hash`] but keeps the error kind.
+pub fn multihasher_hash_kind(
+    store: Arc<InMemoryStore>,
+    multihash_code: u64,
+    input: &[u8],
+) -> Result<Vec<u8>, HashError> {
+    futures::executor::block_on(multihasher_hash_async(store, multihash_code, input))
+}
+
+/// `shwap::convert_cid`.
+pub fn convert_cid<const S: usize>(cid: &CidGeneric<S>) -> Result<Cid, String> {
+    super::convert_cid(cid).map_err(|e| e.to_string())
+}
+
+/// `shwap::sample_cid`.
+pub fn sample_cid(row_index: u16, column_index: u16, block_height: u64) -> Result<Cid, String> {
+    super::sample_cid(row_index, column_index, block_height).map_err(|e| e.to_string())
+}
+
+/// `shwap::get_block_container`.
+pub fn get_block_container(expected_cid: &Cid, block: &[u8]) -> Result<Vec<u8>, String> {
+    super::get_block_container(expected_cid, block).map_err(|e| e.to_string())
+}
